@@ -13,7 +13,7 @@ for f in $S/demo/*.rs; do
   case $b in
     btree_*) cp $f rs/anda_db_btree/tests/${b#btree_}; DEMOS="$DEMOS anda_db_btree:${b%.rs}";;
     collection_*) cp $f rs/anda_db/tests/${b#collection_}; DEMOS="$DEMOS anda_db:${b%.rs}";;
-    *) cp $f rs/$DC/tests/$b; DEMOS="$DEMOS $DC:${b%.rs}";;
+    *) mkdir -p rs/$DC/tests; cp $f rs/$DC/tests/$b; DEMOS="$DEMOS $DC:${b%.rs}";;
   esac
 done
 run_demos() { rc=0; for d in $DEMOS; do c=${d%%:*}; t=${d##*:}; t=${t#btree_}; t=${t#collection_}; timeout 1800 cargo test -p $c --offline --test $t >>$LOG 2>&1 || rc=1; done; return $rc; }
